@@ -65,6 +65,10 @@ def build_go(race=False):
     out = os.path.join(HARNESS, "bin", "runner-race" if race else "runner")
     env = dict(GOENV)
     cmd = ["go", "build", "-tags", "verif", "-o", out]
+    if os.environ.get("VERIF_COVER") and not race:
+        # coverage of the LIBRARY by the correspondence runs (bin/coverage); profiles go to $GOCOVERDIR
+        cmd[2:2] = ["-cover", "-coverpkg=verif/harness/cmd/runner,github.com/vedadiyan/genql,"
+                    "github.com/vedadiyan/genql/compare,github.com/vedadiyan/genql/sanitizer"]
     if race:
         env["CGO_ENABLED"] = "1"
         cmd.insert(2, "-race")
